@@ -2,7 +2,7 @@ SPECIFICATION Spec
 CONSTANTS
   MaxInst = 3
   NestDepth = 3
-  SpineDepth = 2
+  SpineDepth = 1
   NestableOnly = FALSE
   Export = TRUE
 INVARIANT Inv
